@@ -218,6 +218,24 @@ theorem LogInv.connInner {srv : Server} (h : LogInv srv) (cfg : Config) (cn : Co
   repeat' split
   all_goals first | exact h | exact h.inSession cfg _ _ _
 
+@[simp] theorem setMode_sessions (srv : Server) (c : Nat) (e : Err) : (setMode srv c e).sessions = srv.sessions := by
+  cases e <;> rfl
+@[simp] theorem setMode_log (srv : Server) (c : Nat) (e : Err) : (setMode srv c e).log = srv.log := by
+  cases e <;> rfl
+@[simp] theorem setMode_next (srv : Server) (c : Nat) (e : Err) : (setMode srv c e).nextSid = srv.nextSid := by
+  cases e <;> rfl
+
+theorem LogInv.setMode {srv : Server} (h : LogInv srv) (c : Nat) (e : Err) : LogInv (setMode srv c e) :=
+  h.congr (by simp [sessIds]) (by simp) (by simp)
+
+theorem LogInv.nonRequest {srv : Server} (h : LogInv srv) (c : Nat) (b : Bool) : LogInv (nonRequest srv c b) := by
+  unfold Sess.nonRequest
+  split
+  · exact h
+  · split
+    · exact h
+    · exact h.closeConn c
+
 theorem LogInv.handleRequest {srv : Server} (h : LogInv srv) (cfg : Config) (cn : Conn) (r : Request) :
     LogInv (handleRequest cfg srv cn r).1 := by
   have := h.connInner cfg cn r
@@ -228,13 +246,15 @@ theorem LogInv.handleRequest {srv : Server} (h : LogInv srv) (cfg : Config) (cn 
   dsimp only
   split
   · exact LogInv.closeConn this _
-  · exact this
+  · exact LogInv.setMode this _ _
 
 theorem LogInv.stepEv {srv : Server} (h : LogInv srv) (cfg : Config) (e : Event) : LogInv (stepEv cfg srv e).1 := by
   cases e with
   | «open» c ip => simp only [Sess.stepEv]; split; exact h; exact h.withConns _
   | close c => exact h.closeConn c
   | expire sid => exact h.endSession sid
+  | frame c => exact h.nonRequest c true
+  | response c => exact h.nonRequest c false
   | req c r =>
     simp only [Sess.stepEv]
     split
